@@ -43,7 +43,7 @@ def plan(tier, seed):
     if tier == 'quick':
         kinds = ['net'] * 96 + ['line'] * 48 + ['raman'] * 40
     else:
-        kinds = ['net'] * 1200 + ['line'] * 800 + ['raman'] * 600
+        kinds = ['net'] * 3000 + ['line'] * 2400 + ['raman'] * 1500
     cases = []
     for i, k in enumerate(kinds):
         c = {'idx': i, 'kind': k}
@@ -441,7 +441,9 @@ def run_raman(case, ctx):
     for method, order in (('perturbative', 2), ('numerical', 1)):
         dz = 100
         on_grid = rng.random() < 0.5
-        pos_km = round(length * G.rnd(rng, 0.2, 0.8, 2), 1) if on_grid else round(length * G.rnd(rng, 0.2, 0.8, 2), 1) + 0.0375
+        pos_km = round(length * G.rnd(rng, 0.2, 0.8, 2), 1)
+        if not on_grid:
+            pos_km = round(pos_km + G.pick(rng, [0.0375, 0.0625, 0.0123, 0.0881]), 4)
         val = G.pick(rng, [0.5, 1.0, 2.0])
         set_sim(method, order, dz)
         e0, _ = raman_fibre(rng2, [], length_km=length, cls=Fiber, loss_coef=fp['loss_coef'])
